@@ -26,6 +26,11 @@ def main():
     import joblib
     kind = spec["kind"]; work = spec["work"]; log = spec.get("log") or os.path.join(work, "exec.log")
     mems = {st: joblib.Memory(os.path.join(spec["root"], "store%s" % st), verbose=0) for st in spec.get("stores", [1])}
+    if spec.get("alias"):
+        # these Memory objects are store 1 again, spelled as a relative path
+        os.chdir(work)
+        for st in spec["alias"]:
+            mems[st] = joblib.Memory(os.path.relpath(os.path.join(spec["root"], "store1"), work), verbose=0)
     objs = {}      # slot -> (function, {store: memorized})
     codes = {}     # version -> code object (for swaps)
     ndef = [0]
